@@ -613,17 +613,77 @@ def rule_resize_copyback(chk, prog):
             (r.bad if bad else r.ok)(inst, fn.where(), bad or "")
 
 
+def rule_resize_sliver(chk, prog):
+    """resize.cpp TransformNode: the working copy of a node for one resize pass."""
+    from ..microai.interp import MapVal
+    r = chk.rule("RESIZE-SLIVER-WHERE-THE-NODE-IS", "TransformNode::operator() (start of each resize pass) interpreted for a resized node whose target "
+                 "has a DIFFERENT centre, and for an ordinary node, in both dimensions: the working copy of a resized node is a sliver (width "
+                 "1e-4) around the node's CURRENT centre in the pass dimension and unchanged in the other -- the edge ends attached to the "
+                 "centre are carried to the target by the topology solver (desired position = target centre, fixed weight), which keeps "
+                 "them on the right side of every node on the way; a sliver created at the target makes them jump there unchecked", floor=4)
+    cands = [f for k_, f in prog.by_key.items() if k_.startswith("topology::TransformNode::operator()(") and f.body is not None]
+    if len(cands) != 1:
+        raise AnalysisBroken("topology::TransformNode::operator() not found")
+    fn = cands[0]
+    F = Fraction
+
+    def rect(x0, x1, y0, y1):
+        return default_obj(prog, "vpsc::Rectangle", {"minX": F(x0), "maxX": F(x1), "minY": F(y0), "maxY": F(y1), "overlap": False})
+    for dim in (0, 1):
+        for resized in (True, False):
+            r.count()
+            u = default_obj(prog, "topology::Node", {"id": 2, "rect": rect(0, 100, 200, 240)})
+            tgt = rect(30, 150, 260, 280)
+            var = default_obj(prog, "vpsc::Variable", {"id": 2, "desiredPosition": F(-1), "weight": F(-1)})
+            info = default_obj(prog, "topology::ResizeInfo", {"orig": u, "targetRect": tgt})
+            functor = Obj("topology::TransformNode", {"dim": dim, "targets": Vec([None, None, tgt], "vpsc::Rectangle *"),
+                                                      "resizes": MapVal({2: info} if resized else {9: info}),
+                                                      "vs": Vec([None, None, var], "vpsc::Variable *")})
+            it = Interp(prog, Oracle([]), globals={"vpsc::Rectangle::xBorder": Box(F(0)), "vpsc::Rectangle::yBorder": Box(F(0))})
+            inst = "%s node, %s pass" % ("resized" if resized else "ordinary", "xy"[dim])
+            try:
+                w = it.call(fn, functor, None, None, arg_values=[u])
+            except Unsupported as e:
+                raise AnalysisBroken("TransformNode outside the interpreter subset (%s): %s" % (inst, e))
+            except AssertFail as e:
+                r.bad(inst, fn.where(), "assertion fails: %s" % e)
+                continue
+            rc = w.f["rect"].f
+            got = [(F(rc["minX"]), F(rc["maxX"])), (F(rc["minY"]), F(rc["maxY"]))]
+            want = [(F(0), F(100)), (F(200), F(240))]
+            bad = None
+            if resized:
+                c = F(50) if dim == 0 else F(220)
+                lo, hi = got[dim]
+                if got[1 - dim] != want[1 - dim]:
+                    bad = "the other dimension of the working copy changed: %s" % (tuple(str(a) for a in got[1 - dim]),)
+                elif not (lo < c < hi and hi - lo <= F(1, 100) and lo + hi == 2 * c):
+                    bad = "the sliver is [%s, %s]; the node's current centre is %s (the target's is %s)" % (
+                        float(lo), float(hi), c, 90 if dim == 0 else 270)
+            elif got != want:
+                bad = "the working copy of an ordinary node is not a copy of its rectangle"
+            tc = F(90) if dim == 0 else F(270)
+            if not bad and F(var.f["desiredPosition"]) != tc:
+                bad = "desired position %s, expected the target's centre %s" % (var.f["desiredPosition"], tc)
+            if not bad and w.f.get("var") is not var:
+                bad = "the working copy does not carry the node's variable"
+            if not bad and u.f["rect"].f["minX"] != F(0):
+                bad = "the caller's rectangle was modified"
+            (r.bad if bad else r.ok)(inst, fn.where(), bad or "")
+
+
 def rule_bend_tie(chk, prog):
     """Two consecutive bends on one point (opposite corners of two touching rectangles): which one goes when their constraints tie."""
     r = chk.rule("BEND-TIE", "BendConstraint::satisfy interpreted on a path n - o - p - q - r whose bends p and q lie on the same point (zero-length "
                  "segment between them), for the constraint of either bend and either outcome of validTurn: the bend that is removed is the "
                  "one that is NOT a proper turn between the points on either side of the pair -- whichever of the two tied constraints was "
                  "picked, i.e. independent of the direction in which the edge is listed; a lone bend is removed as before; the removed bend's "
-                 "node gets the replacing StraightConstraint", floor=6)
+                 "node gets the replacing StraightConstraint; the same when the two bends are 1e-10 apart (moved onto each other, equal up to rounding)", floor=10)
     fn = prog.fn("topology::BendConstraint::satisfy")
     import itertools
-    for own_first, p_valid in itertools.product((True, False), (True, False)):
-        # path: n - o - p - q - r; p and q coincide.  The satisfied constraint belongs to p (own_first) or to q.
+    for own_first, p_valid, gap_len in itertools.product((True, False), (True, False), (Fraction(0), Fraction(1, 10 ** 10))):
+        # path: n - o - p - q - r; p and q coincide (exactly, or up to rounding: corners that were MOVED onto each other by the solver
+        # agree only to about 1e-13).  The satisfied constraint belongs to p (own_first) or to q.
         pts = {k: default_obj(prog, "topology::EdgePoint", {"_tag": k, "rectIntersect": 0, "node": default_obj(prog, "topology::Node", {"id": i_})})
                for i_, k in enumerate("nopqr")}
         n_, o, p_, q, rr = (pts[k] for k in "nopqr")
@@ -633,7 +693,7 @@ def rule_bend_tie(chk, prog):
             a.f["outSegment"] = s_
             b.f["inSegment"] = s_
             return s_
-        seg(n_, o, 5), seg(o, p_, 5), seg(p_, q, 0), seg(q, rr, 5)
+        seg(n_, o, 5), seg(o, p_, 5), seg(p_, q, gap_len), seg(q, rr, 5)
         own = p_ if own_first else q
         twin = q if own_first else p_
         bc = default_obj(prog, "topology::BendConstraint", {"bendPoint": own, "scanDim": 0})
@@ -655,7 +715,8 @@ def rule_bend_tie(chk, prog):
                 return not p_valid
             return True
         it.vhooks["topology::validTurn"] = vturn
-        inst = "constraint of the %s bend, %s is the proper turn" % ("first" if own_first else "second", "the first" if p_valid else "the second")
+        inst = "constraint of the %s bend, %s is the proper turn%s" % ("first" if own_first else "second", "the first" if p_valid else "the second",
+                                                                         "" if gap_len == 0 else ", bends 1e-10 apart")
         r.count()
         try:
             it.call(fn, bc, None, None, arg_values=[])
@@ -761,6 +822,7 @@ def run(chk):
     chk.guard(rule_prune_degenerate, chk, prog)
     chk.guard(rule_node_identity, chk, prog)
     chk.guard(rule_resize_copyback, chk, prog)
+    chk.guard(rule_resize_sliver, chk, prog)
     chk.guard(rule_bend_tie, chk, prog)
     chk.guard(rule_hidden_segments, chk, prog)
     from ..rules import mirrors
